@@ -72,6 +72,11 @@ fn trees(r: &mut Report) {
         T { id: "relative-symlink-to-dir", build: |d| { std::fs::create_dir_all(d.join("real")).unwrap(); std::fs::write(d.join("real/f"), "t").unwrap(); symlink("real", d.join("ldir")).unwrap(); } },
         T { id: "symlink-cycle-to-parent", build: |d| { std::fs::create_dir_all(d.join("a")).unwrap(); std::fs::write(d.join("a/f"), "t").unwrap(); symlink("..", d.join("a/up")).unwrap(); } },
         T { id: "symlink-cycle-to-self-dir", build: |d| { std::fs::create_dir_all(d.join("a")).unwrap(); std::fs::write(d.join("a/f"), "t").unwrap(); symlink(d.join("a"), d.join("a/self")).unwrap(); } },
+        // cycle links among many siblings (whatever order the directory is listed in, some siblings come after the link)
+        T { id: "symlink-cycles-among-many-siblings", build: |d| { std::fs::create_dir_all(d.join("pkg/sub")).unwrap();
+            for i in 0..24 { std::fs::write(d.join(format!("pkg/{}{}", ["a", "m", "z", "B", "_", "0"][i % 6], i)), format!("c{}", i)).unwrap(); }
+            for i in 0..6 { std::fs::write(d.join(format!("pkg/sub/s{}", i)), format!("s{}", i)).unwrap(); }
+            symlink("..", d.join("pkg/back")).unwrap(); symlink(".", d.join("pkg/here")).unwrap(); symlink("../..", d.join("pkg/sub/up2")).unwrap(); } },
         T { id: "symlink-to-symlink-to-file", build: |d| { std::fs::write(d.join("target"), "t").unwrap(); symlink(d.join("target"), d.join("l1")).unwrap(); symlink(d.join("l1"), d.join("l2")).unwrap(); } },
     ];
     for t in ts.iter() {
